@@ -597,14 +597,14 @@ def handle_end_progs(state: TokenizerState) -> Iterator[TokenInfo]:
     if state.in_braces() or (not state.end_progs):  # in case the state changed above
         return
 
-    if (
-        (state.pos == 0)  # called at start of the line
-        or ((state.in_multi_line_string()) or (state.in_continued_string()))
-    ):
+    if state.in_multi_line_string() or state.in_continued_string():
         state.end_progs[-1].join_line(state)
         state.pos = state.max
-    # else:
-    #     raise TokenError(f"Invalid string quotes at {state.pos} in {state.line}", (state.lnum, state.pos))
+    elif state.end_progs[-1].mode is None:  # a plain single-quoted string must end on its line
+        raise TokenError("unterminated string literal", state.end_progs[-1].start)
+    elif state.pos == 0:  # called at start of the line
+        state.end_progs[-1].join_line(state)
+        state.pos = state.max
 
 
 def _tokenize(readline: Callable[[], str]) -> Iterator[TokenInfo]:
